@@ -237,6 +237,25 @@ def r4(ctx):
                             ok = False
                 ctx.ob("R4", "%s/first document emitted" % short, ok, "the document taken before the loops is serialised on every style arm", where=f.loc())
                 found |= set(emits) & {e.name for e in f.calls}
+            # the same loop written as an iterator pipeline: the emit sits in a closure handed to for_each/try_for_each/map
+            for g in prog.closures_of(f):
+                es = [c for c in g.calls if c.name in emits and c.bb in g.live_blocks]
+                if not es or {e.name for e in es} <= found:
+                    continue
+                from ..query import closure_consumer
+                cons = closure_consumer(prog, g)
+                if not cons or cons[1].name not in ("for_each", "try_for_each", "map", "flat_map", "filter_map"):
+                    continue
+                nloops += 1
+                found |= {e.name for e in es}
+                pf, pc, ai = cons
+                ad, lv = iter_chain(prog, pf, pc.args[0])
+                drop = sorted(({x[1].name for x in ad} | {pc.name}) & DROPPING_ITER)
+                skip = path_avoiding(g, 0, [e.bb for e in es], list(g.return_blocks()))
+                en = "|".join(sorted({e.name for e in es}))
+                ctx.ob("R4", "%s/every item reaches %s" % (short, en), not drop and not skip,
+                       "items flow through %s into a closure that emits on every path" % sorted({x[1].name for x in ad} | {pc.name}) if not drop and not skip else
+                       "an item can be dropped (%s) before %s" % (drop or "a path through the closure avoids the emit", en), where=g.loc())
             missing = [e for e in emits if e not in found]
             ctx.ob("R4", "%s/loops found" % short, not missing, "loops driving %s identified" % emits if not missing else "no next()-driven loop around %s (anchor lost: fail closed)" % missing, where=f.loc(), nontrivial=False)
         for sink, ai in pipes:
